@@ -258,6 +258,13 @@ static std::vector<Job> jobs_string()
                     std::string c = s;
                     nitro::lang::replace_all(c, sep, "<" + sep + ">");
                     r += " repl=" + hex(c);
+                    // replacements that are shorter than / as long as the pattern, and the empty one
+                    for (const std::string& rep : { std::string(), std::string("x"), std::string(sep.size(), '#'), sep + sep })
+                    {
+                        std::string d = s;
+                        nitro::lang::replace_all(d, sep, rep);
+                        r += "," + hex(d);
+                    }
                     r += " join=" + hex(nitro::lang::join(parts, sep));
                     r += " sw=" + std::to_string(nitro::lang::starts_with(s, sep));
                     std::vector<int> nums{ 1, -2, 30 };
